@@ -23,14 +23,25 @@ META = {
             'their current initial value; DirectCollocation helper states start from the node state of their interval; pre.lbg/ubg == opti.lbg/ubg(p); helper(x,p) == the sample/value result expressions; the embedded NLP has '
             'the dimensions of opti\'s.  Ground anchor: for concrete values, set_value/set_initial on the imperative side produce the same x0/p as pre(values).  nlpsol itself is an uninterpreted deterministic function of its inputs',
     'functions': ['rockit/ocp.py:to_function', 'rockit/direct_method.py:DirectMethod.to_function', 'rockit/direct_collocation.py:DirectCollocation.to_function (Xc_vars0/Zc0 implicit initialisation)', 'rockit/stage.py:value/sample'],
-    'bounds': '<=3 arguments, <=3 results; MS, SS, DC (degree 2); N<=3, M<=2; parameters global and per-interval; guesses for states (n x (N+1)), controls (n x N), global variables',
+    'bounds': '<=3 arguments, <=3 results; MS, SS, DC (degree 2, 3); N<=3, M<=2; parameters global and per-interval; guesses for states (n x (N+1)), controls (n x N), global variables, the "z" argument of DirectCollocation on a DAE',
     'outside': 'initial-guess arguments of SCALED quantities (CasADi\'s Opti.to_function requires purely symbolic arguments and raises); the numeric result of the embedded solver (deterministic function of its inputs: assumed); code generation of the Function; IEEE rounding',
     'assumptions': ['nlpsol is a deterministic function of (x0,p,lbx,ubx,lbg,ubg,lam0): agreement of its inputs implies agreement of the pipelines', 'reals for floats'],
     'explanation': 'bounded symbolic checking of the argument routing (pre) and result map (helper) of the real to_function graph, decided by z3; the imperative pipeline is anchored at concrete values',
 }
 
 
+def dae_model():
+    s = Spec(nx=2, nu=1, nz=1, ode=[Z(0) * X(1) + t, nl1(X(0)) + U(0) * Pg('pc')], alg=[Z(0) - nl2(X(0), t) * Pg('a') + X(1)],
+             params=[Sym('a', value=2), Sym('pc', 'control', value=3), Sym('b', value=Fr(5, 2))], vars=[Sym('w')])
+    s.objective = [integral(X(0) * X(0) + U(0) * U(0) + Z(0) * Z(0)) + Vg('w') * Vg('w') * Pg('b')]
+    s.cons = [Con('==', at_t0(X(0)), Pg('a')), Con('<=<=', -3, 3, mid=U(0))]
+    s.initial = [(Z(0), Fr(-1))]
+    return s
+
+
 def model(dae=False):
+    if dae:
+        return dae_model()
     s = Spec(nx=2, nu=1, ode=[nl1(X(1)) * U(0) + t * X(0), X(0) - X(1) * Pg('pc') + Vg('w') * Pg('a')],
              params=[Sym('a', value=Fr(3, 2)), Sym('pc', 'control', value=2), Sym('b', value=Fr(5, 2))], vars=[Sym('w')])
     s.objective = [integral(X(0) * X(0) + U(0) * U(0)) + Vg('w') * Vg('w') * Pg('b')]
@@ -61,6 +72,10 @@ def instances(tier, seed):
                 M = [1, 2][(n // 2) % 2]
                 add(spec=model(), cfg=Cfg(method, N=N, M=M, intg=intg or 'rk', grid=[fam.G_UNI, fam.G_GEO_LOC][n % 2], degree=2, scheme='radau'), args=args, results=ress)
                 n += 1
+        # DAE under DirectCollocation: the special "z" argument (guess for the algebraic variables per control interval)
+        for args, ress in ((['zstr'], ['x', 'u']), (['x', 'zstr'], ['x']), (['p:a', 'zstr'], ['u'])):
+            add(spec=model(dae=True), cfg=Cfg('DC', N=[2, 3][n % 2], M=[1, 2][(n // 2 + 1) % 2], grid=fam.G_UNI, degree=[2, 3][n % 2], scheme='radau'), args=args, results=ress)
+            n += 1
     return items
 
 
@@ -86,6 +101,8 @@ def run(item):
                 args_mx.append(b.psym[a[2:]])
             elif a.startswith('pc:'):
                 args_mx.append(ocp.sample(b.psym[a[3:]], grid='control-')[1])
+            elif a == 'zstr':
+                args_mx.append('z')
             else:
                 if a == 'x' and cfg.method == 'SS':
                     args_mx.append(xs[:, 0])      # only the initial state is a decision variable under SingleShooting
@@ -195,6 +212,13 @@ def run(item):
                     k = n_ // M
                     for s in range(spec.nx):
                         P('dc-helper-init', 'Xi[%d][%d] == arg[:,%d]' % (n_, s, k), {d: trs[d].Xi[n_][s] for d in doms}, {d: argval(i, k * spec.nx + s, d) for d in doms})
+        elif a == 'zstr':
+            # every collocation root (and sub-step start) of interval k starts from column k of the "z" argument
+            d_ = cfg.degree
+            for n_, col in enumerate(trz.Zr):
+                k = n_ // (M * d_)
+                for s_ in range(spec.nz):
+                    P('dc-z-arg-init', 'Zr[%d][%d] == z_arg[:,%d]' % (n_, s_, k), {d: trs[d].Zr[n_][s_] for d in doms}, {d: argval(i, k * spec.nz + s_, d) for d in doms})
         elif a == 'u':
             listed_x.add('u')
             for k in range(N):
@@ -276,6 +300,13 @@ def run(item):
     else:
         ch.proved.append('embedded NLP dimensions')
     # ground anchor: imperative calls give the same x0/p as pre(values)
+    if 'zstr' in item['args']:
+        # the imperative counterpart (an array guess for an algebraic variable) raises in rockit (recorded under C10): no anchor here
+        r_ = result(I, ch, {'violations': viol, 'twins_ok': 0, 'twins_bad': 0, 'shape': '%s|%s->%s' % (cfg.tag(), item['args'], item['results']),
+                            'sample': {'cfg': cfg.tag(), 'args': item['args'], 'results': item['results'], 'proved': len(ch.proved)}})
+        if viol:
+            r_['status'] = 'violation'
+        return r_
     vals = fpts[0]
     preF = ca.Function('pre', ain, [node.dep(0), node.dep(1)])
     pv = preF.call([ca.DM(np.array(v)).reshape(a.shape) if a.numel() > 1 else ca.DM(v[0]) for v, a in zip(vals, ain)])
